@@ -304,6 +304,114 @@ theorem C18.halfcomplex_roundtrip {K : Type} [Field K] (σ : K →+* K) (w : K) 
   unfold npIrfft npIfft
   rw [dftSum_eq, dftSum_eq, Finset.sum_congr rfl hext]
 
+/-! ## The `adjoint` property of the plain DFT operators (what the code returns; F59 of C05) -/
+
+/-- **The true adjoint is `n ·` the operator the code returns.**  `DiscreteFourierTransform.adjoint`
+returns `self.inverse` (`dftAdjointAxis`, by construction the inverse with the flipped sign and the
+`1/n` normalisation).  Over any field with a conjugation `σ` (`σ w = w⁻¹`), for both signs, every
+length and all `x`, `y`, with the plain sesquilinear pairing `⟨u, v⟩ = Σ u_k σ(v_k)` (the inner
+product of the unweighted spaces): `⟨F x, y⟩ = n · ⟨x, F.adjoint y⟩`.  So `n · F.adjoint` is the
+adjoint and `F.adjoint` itself misses the factor `n` exactly (no root-of-unity hypothesis needed).
+The harness checks this ratio on the real code in the stream `adjoint/scaled-identity`. -/
+theorem C18.dft_true_adjoint {K : Type} [Field K] (σ : K →+* K) (w : K) (n : Nat)
+    (hnK : (n : K) ≠ 0) (hσ : σ w = w⁻¹) (plus : Bool) (x y : Nat → K) :
+    sumTo n (fun k => dftForwardNp plus w w⁻¹ n x k * σ (y k))
+      = (n : K) * sumTo n (fun j => x j * σ (dftAdjointAxis plus w w⁻¹ n y j)) := by
+  have hσi : σ w⁻¹ = w := by rw [map_inv₀, hσ, inv_inv]
+  have hσn : σ (n : K) = n := map_natCast σ n
+  simp only [sumTo_eq_sum, dftAdjointAxis]
+  cases plus
+  · simp only [dftForwardNp, dftInverseNp, npIfft, dftSum_eq, Bool.not_false, if_true,
+      Bool.false_eq_true, if_false, map_div₀, map_sum, map_mul, map_pow, hσi, hσn]
+    rw [adj_core, Finset.mul_sum]
+    apply Finset.sum_congr rfl; intro j _
+    field_simp
+  · simp only [dftForwardNp, dftInverseNp, npIfft, dftSum_eq, Bool.not_true, if_true,
+      Bool.false_eq_true, if_false, map_div₀, map_sum, map_mul, map_pow, hσ, hσn]
+    simp only [mul_div_cancel₀ _ hnK]
+    rw [adj_core, Finset.mul_sum]
+    apply Finset.sum_congr rfl; intro j _
+    field_simp
+
+/-- The same for `DiscreteFourierTransformInverse.adjoint` (= its `inverse`, the forward operator with
+the flipped sign, `dftInvAdjointAxis`): `n · ⟨F⁻¹ y, x⟩ = ⟨y, F⁻¹.adjoint x⟩`, i.e. the true adjoint
+is `(1/n) ·` the returned operator. -/
+theorem C18.dft_inverse_true_adjoint {K : Type} [Field K] (σ : K →+* K) (w : K) (n : Nat)
+    (hnK : (n : K) ≠ 0) (hσ : σ w = w⁻¹) (plus : Bool) (x y : Nat → K) :
+    (n : K) * sumTo n (fun j => dftInverseNp plus w w⁻¹ n y j * σ (x j))
+      = sumTo n (fun k => y k * σ (dftInvAdjointAxis plus w w⁻¹ n x k)) := by
+  have hσi : σ w⁻¹ = w := by rw [map_inv₀, hσ, inv_inv]
+  have hσn : σ (n : K) = n := map_natCast σ n
+  simp only [sumTo_eq_sum, dftInvAdjointAxis]
+  cases plus
+  · simp only [dftForwardNp, dftInverseNp, npIfft, dftSum_eq, Bool.not_false, if_true,
+      Bool.false_eq_true, if_false, map_sum, map_mul, map_pow, hσi,
+      mul_div_cancel₀ _ hnK]
+    rw [← adj_core, Finset.mul_sum]
+    apply Finset.sum_congr rfl; intro j _
+    field_simp
+  · simp only [dftForwardNp, dftInverseNp, npIfft, dftSum_eq, Bool.not_true, if_true,
+      Bool.false_eq_true, if_false, map_sum, map_mul, map_pow, hσ]
+    rw [← adj_core, Finset.mul_sum]
+    apply Finset.sum_congr rfl; intro j _
+    field_simp
+
+/-- **Counterexample on the model (finding F59 of C05, every length).**  Whenever `n ≠ 1` in `K`
+(every `n ≥ 2` in characteristic 0), the operator returned by `DiscreteFourierTransform.adjoint`
+is NOT the adjoint for the plain pairing: for `x = e₀`, `y = F e₀` the two sides are `n` and `1`. -/
+theorem C18.dft_code_adjoint_is_not_adjoint {K : Type} [Field K] (σ : K →+* K) (w : K) (n : Nat)
+    (hn : 0 < n) (hnK : (n : K) ≠ 0) (hn1 : (n : K) ≠ 1) (hw : IsPrimRoot w n) (hσ : σ w = w⁻¹)
+    (plus : Bool) :
+    ∃ x y : Nat → K,
+      sumTo n (fun k => dftForwardNp plus w w⁻¹ n x k * σ (y k))
+        ≠ sumTo n (fun j => x j * σ (dftAdjointAxis plus w w⁻¹ n y j)) := by
+  refine ⟨fun j => if j = 0 then 1 else 0, dftForwardNp plus w w⁻¹ n (fun j => if j = 0 then 1 else 0), ?_⟩
+  rw [C18.dft_true_adjoint σ w n hnK hσ plus]
+  have h1 : sumTo n (fun j => (if j = 0 then (1 : K) else 0) *
+      σ (dftAdjointAxis plus w w⁻¹ n (dftForwardNp plus w w⁻¹ n (fun j => if j = 0 then 1 else 0)) j))
+      = 1 := by
+    rw [sumTo_eq_sum, Finset.sum_eq_single 0]
+    · have := C18.dft_inverse w n hn hnK hw plus (fun j => if j = 0 then (1 : K) else 0) 0 hn
+      simp only [dftAdjointAxis, this]; simp
+    · intro j _ hj; simp [hj]
+    · intro h; exact absurd (Finset.mem_range.mpr hn) h
+  rw [h1, mul_one]; exact hn1
+
+/-- Non-vacuity: `K = ℚ`, `σ = id`, `w = -1`, `n = 2`. -/
+example : ∃ x y : Nat → ℚ,
+    sumTo 2 (fun k => dftForwardNp false (-1 : ℚ) (-1)⁻¹ 2 x k * (RingHom.id ℚ) (y k))
+      ≠ sumTo 2 (fun j => x j * (RingHom.id ℚ) (dftAdjointAxis false (-1 : ℚ) (-1)⁻¹ 2 y j)) :=
+  C18.dft_code_adjoint_is_not_adjoint (RingHom.id ℚ) (-1) 2 (by norm_num) (by norm_num) (by norm_num)
+    ⟨by norm_num, by intro d hd hd2; have : d = 1 := by omega
+                     subst this; norm_num⟩ (by norm_num) false
+
+/-- By construction of `dftAdjointStatus` (the `if` of `DiscreteFourierTransformBase.adjoint`): the
+adjoint is exposed exactly for exponent 2 on both sides. -/
+theorem C18.dft_adjoint_exposed_iff (d r : Bool) :
+    dftAdjointStatus d r = none ↔ (d = true ∧ r = true) := by
+  cases d <;> cases r <;> simp [dftAdjointStatus]
+
+/-- **Default range (open finding F18g).**  The constructor of the plain DFT operators with
+`range=None` fails exactly when the range shape has a one-point axis (zero extent of the default
+`nodes_on_bdry` grid, zero cell volume); shapes with all axes `≥ 2` and every given range are
+accepted.  The `if` is by construction; the content is the characterisation by axis lengths. -/
+theorem C18.dft_default_range_partial (fshape : List Nat) (given : Bool)
+    (h : given = true ∨ ∀ n ∈ fshape, 2 ≤ n) : dftDefaultRangeStatus fshape given = none := by
+  unfold dftDefaultRangeStatus
+  rcases h with h | h
+  · simp [h]
+  · have : fshape.any (· == 1) = false := by
+      rw [List.any_eq_false]; intro n hn; have := h n hn; simp; omega
+    simp [this]
+
+/-- Counterexample on the model for F18g: shape `(4, 1)`, no range given. -/
+theorem C18.dft_default_range_one_point_fails :
+    dftDefaultRangeStatus [4, 1] false = some "err:value" ∧
+    dftDefaultRangeStatus [4, 1] true = none := by decide
+
+example : dftDefaultRangeStatus [4, 3, 2] false = none :=
+  C18.dft_default_range_partial _ _ (Or.inr (by decide))
+
 /-! ## Constructor and planner of the plain DFT operators -/
 
 /-- The range built by the constructor always fits the array the transform produces: for
